@@ -224,6 +224,8 @@ enum Host {
     Mixed,
     /// legacy timers; the observation is the occupancy of the process-wide cleared-timer set (C13)
     LSet,
+    /// both timer APIs in one app (as `mixed`); the observation is the occupancy of the cleared-timer set (C13)
+    MSet,
 }
 
 struct Case {
@@ -241,6 +243,7 @@ fn parse_case(line: &str) -> Option<Case> {
         "legacy" => Host::Legacy,
         "mixed" => Host::Mixed,
         "lset" => Host::LSet,
+        "mset" => Host::MSet,
         _ => return None,
     };
     let kind_str = it.next()?;
@@ -249,8 +252,8 @@ fn parse_case(line: &str) -> Option<Case> {
         .map(|c| match c {
             'A' => Some(false),
             'T' => Some(true),
-            'a' if host == Host::Mixed => Some(false),
-            't' if host == Host::Mixed => Some(true),
+            'a' if host == Host::Mixed || host == Host::MSet => Some(false),
+            't' if host == Host::Mixed || host == Host::MSet => Some(true),
             _ => None,
         })
         .collect::<Option<_>>()?;
@@ -268,8 +271,8 @@ fn parse_case(line: &str) -> Option<Case> {
         }
         let allowed = match host {
             Host::Legacy | Host::LSet => "pfwkrcasS",
-            Host::Mixed if leg[i] => "pfwkrcasS",
-            Host::Mixed => "pfwkrchabyxsS",
+            Host::Mixed | Host::MSet if leg[i] => "pfwkrcasS",
+            Host::Mixed | Host::MSet => "pfwkrchabyxsS",
             _ => "pfwkrchabyx",
         };
         if !allowed.contains(a) {
@@ -484,6 +487,7 @@ fn run_core(case: &Case) -> String {
     for &(a, i) in case.actions.iter().chain(flush.iter()) {
         if core_dead {
             out.push("dead".into());
+            set_out.push("dead".into());
             continue;
         }
         let mut rec: Vec<String> = vec![];
@@ -544,6 +548,7 @@ fn run_core(case: &Case) -> String {
             Err(_) => {
                 core_dead = true;
                 out.push("panic".into());
+                set_out.push("panic".into());
                 continue;
             }
             Ok((res, effects)) => {
@@ -572,17 +577,14 @@ fn run_core(case: &Case) -> String {
         }
         seen_log = view.log.len();
         out.push(rec.join(","));
-        if case.host == Host::LSet {
+        if case.host == Host::LSet || case.host == Host::MSet {
             let in_set = crux_time::verif_cleared_timer_ids();
             let c: String = (0..n).filter(|j| raws[*j].is_some_and(|id| in_set.binary_search(&id).is_ok())).map(|j| j.to_string()).collect();
-            let o: String = (0..n).filter(|j| raws[*j].is_some() && !finished[*j]).map(|j| j.to_string()).collect();
+            let o: String = (0..n).filter(|j| case.leg[*j] && raws[*j].is_some() && !finished[*j]).map(|j| j.to_string()).collect();
             set_out.push(format!("c{c}/o{o}"));
         }
     }
-    if case.host == Host::LSet {
-        if core_dead {
-            set_out.push("dead".into());
-        }
+    if case.host == Host::LSet || case.host == Host::MSet {
         return format!("set {}", set_out.join(" "));
     }
     let mut res = vec![ids_class(&created).to_string()];
@@ -806,6 +808,10 @@ fn gen(seed: u64, n: usize) {
 /// ONE app starting timers through both APIs in an interleaved order: 1..6 timers, random API and constructor per timer,
 /// starts spread over the sequence with polls / fires / clears / drops of the timers that already exist in between
 fn gen_mixed(seed: u64, n: usize) {
+    gen_mixed_as(seed, n, "mixed")
+}
+
+fn gen_mixed_as(seed: u64, n: usize, host: &str) {
     let mut r = Rng::new(seed ^ 0x6d69_7865_64);
     let out = std::io::stdout();
     let mut out = std::io::BufWriter::new(out.lock());
@@ -872,7 +878,7 @@ fn gen_mixed(seed: u64, n: usize) {
             acts.push(format!("{a}{i}"));
         }
         let ks: String = kinds.iter().collect();
-        writeln!(out, "mixed {ks} {}", acts.join(" ")).unwrap();
+        writeln!(out, "{host} {ks} {}", acts.join(" ")).unwrap();
     }
 }
 
@@ -940,6 +946,7 @@ fn main() {
                 gen_exh(args[2].parse().unwrap(), host, args.get(4).map(String::as_str).unwrap_or("alt"))
             }
         }
+        Some("gen-mset") => gen_mixed_as(args[2].parse().unwrap(), args[3].parse().unwrap(), "mset"),
         Some("gen-lset") => gen_lset(args[2].parse().unwrap(), args[3].parse().unwrap()),
         Some("gen-threads") => {
             let mut r = Rng::new(args[2].parse().unwrap());
